@@ -5,15 +5,13 @@ namespace MxModel.IOSpec
 /-- the part of the state the spec invariants are about -/
 def sp (st : St) : List Spec × Nat := (st.specs, st.nextSid)
 
-variable {strict : Bool}
+theorem strans_of_eq {a b : List Spec × Nat} (h : a = b) : STrans a b := h ▸ .refl a
 
-theorem strans_of_eq {a b : List Spec × Nat} (h : a = b) : STrans strict a b := h ▸ .refl a
-
-theorem strans_delSpec (st : St) (σ : Spec) : STrans strict (sp st) (sp (delSpec st σ)) :=
+theorem strans_delSpec (st : St) (σ : Spec) : STrans (sp st) (sp (delSpec st σ)) :=
   .del st.specs st.nextSid σ.sid
 
 theorem strans_dropIfEmpty (st : St) (m : Nat) (v : Val) (l : List Ref) :
-    STrans strict (sp st) (sp (dropIfEmpty st m v l)) := by
+    STrans (sp st) (sp (dropIfEmpty st m v l)) := by
   unfold dropIfEmpty
   split
   · split
@@ -22,7 +20,7 @@ theorem strans_dropIfEmpty (st : St) (m : Nat) (v : Val) (l : List Ref) :
   · exact .refl _
 
 theorem strans_changeDrop (st : St) (m : Nat) (prev : Ref) :
-    STrans strict (sp st) (sp (changeDrop st m prev)) := by
+    STrans (sp st) (sp (changeDrop st m prev)) := by
   unfold changeDrop
   split
   · exact .refl _
@@ -32,7 +30,7 @@ theorem sp_rmNewRef (st : St) (o : Owner) (n : String) (v : Val) : sp (rmNewRef 
   unfold rmNewRef; split <;> rfl
 
 theorem strans_rmDelRef (st : St) (o : Owner) (n : String) :
-    STrans strict (sp st) (sp (rmDelRef st o n).1) := by
+    STrans (sp st) (sp (rmDelRef st o n).1) := by
   unfold rmDelRef
   split
   · exact .refl _
@@ -46,12 +44,12 @@ theorem strans_rmDelRef (st : St) (o : Owner) (n : String) :
         · exact .refl _
 
 theorem strans_rmChangeRef (st : St) (o : Owner) (n : String) (v : Val) :
-    STrans strict (sp st) (sp (rmChangeRef st o n v).1) := by
+    STrans (sp st) (sp (rmChangeRef st o n v).1) := by
   unfold rmChangeRef
   split
   · exact .refl _
   · split
-    · exact strans_changeDrop (implChangeRef st o n v) _ _
+    · exact strans_changeDrop (v2rAppend (implChangeRef st o n v) o.model v (mkRef st o n v)) _ _
     · exact strans_changeDrop (implChangeRef st o n v) _ _
 
 theorem sp_updLoop (m : Nat) (old new : Val) (todo : List Ref) :
@@ -66,7 +64,7 @@ theorem sp_updLoop (m : Nat) (old new : Val) (todo : List Ref) :
     · rw [ih]; rfl
 
 theorem strans_rmUpdateValue (st : St) (m : Nat) (old new : Val) :
-    STrans strict (sp st) (sp (rmUpdateValue st m old new).1) := by
+    STrans (sp st) (sp (rmUpdateValue st m old new).1) := by
   unfold rmUpdateValue
   split
   · exact .refl _
@@ -80,7 +78,7 @@ theorem strans_rmUpdateValue (st : St) (m : Nat) (old new : Val) :
       · rw [sp_updLoop]; exact .refl _
 
 theorem strans_setAttr (kw : List String) (st : St) (o : Owner) (n : String) (v : Val) :
-    STrans strict (sp st) (sp (setAttr kw st o n v).1) := by
+    STrans (sp st) (sp (setAttr kw st o n v).1) := by
   unfold setAttr
   split
   · split
@@ -100,7 +98,7 @@ theorem strans_setAttr (kw : List String) (st : St) (o : Owner) (n : String) (v 
           · exact strans_of_eq (sp_rmNewRef st o n v).symm
 
 theorem strans_delAttr (st : St) (o : Owner) (n : String) :
-    STrans strict (sp st) (sp (delAttr st o n).1) := by
+    STrans (sp st) (sp (delAttr st o n).1) := by
   unfold delAttr
   split
   · split
@@ -115,7 +113,7 @@ theorem strans_delAttr (st : St) (o : Owner) (n : String) :
       · split <;> exact .refl _
 
 theorem strans_newSpec (st : St) (m : Nat) (path : String) (csv : Bool) (sheet : Option String)
-    (data : Val) : STrans strict (sp st) (sp (newSpec st m path csv sheet data).1) := by
+    (data : Val) : STrans (sp st) (sp (newSpec st m path csv sheet data).1) := by
   unfold newSpec
   split
   · exact .refl _
@@ -126,15 +124,15 @@ theorem strans_newSpec (st : St) (m : Nat) (path : String) (csv : Bool) (sheet :
 
 theorem strans_newPandas (kw : List String) (st : St) (o : Owner) (n path : String) (csv : Bool)
     (sheet : Option String) (data : Val) :
-    STrans strict (sp st) (sp (newPandas kw st o n path csv sheet data).1) := by
+    STrans (sp st) (sp (newPandas kw st o n path csv sheet data).1) := by
   unfold newPandas
-  have h1 := strans_newSpec (strict := strict) st o.model path csv sheet data
+  have h1 := strans_newSpec st o.model path csv sheet data
   split
   · rename_i st1 e heq
     rw [heq] at h1; exact h1
   · rename_i st1 σ heq
     rw [heq] at h1
-    have h2 := strans_setAttr (strict := strict) kw st1 o n data
+    have h2 := strans_setAttr kw st1 o n data
     split
     · rename_i st2 heq2
       rw [heq2] at h2; exact .trans h1 h2
@@ -144,52 +142,43 @@ theorem strans_newPandas (kw : List String) (st : St) (o : Owner) (n path : Stri
       · exact .trans h1 (.trans h2 (strans_delSpec st2 σ))
       · exact .trans h1 h2
 
-theorem strans_foldl_delSpec (l : List Spec) : ∀ st : St, STrans strict (sp st) (sp (l.foldl delSpec st)) := by
+theorem strans_foldl_delSpec (l : List Spec) : ∀ st : St, STrans (sp st) (sp (l.foldl delSpec st)) := by
   induction l with
   | nil => intro st; exact .refl _
   | cons σ rest ih => intro st; exact .trans (strans_delSpec st σ) (ih _)
 
-theorem strans_rmDelAllSpec (st : St) (m : Nat) : STrans strict (sp st) (sp (rmDelAllSpec st m).1) := by
+theorem strans_rmDelAllSpec (st : St) (m : Nat) : STrans (sp st) (sp (rmDelAllSpec st m).1) := by
   unfold rmDelAllSpec
   split
   · exact .refl _
   · exact strans_foldl_delSpec _ st
 
-theorem strans_closeModel (st : St) (m : Nat) : STrans strict (sp st) (sp (closeModel st m).1) := by
+theorem strans_closeModel (st : St) (m : Nat) : STrans (sp st) (sp (closeModel st m).1) := by
   unfold closeModel
-  have h := strans_rmDelAllSpec (strict := strict) st m
+  have h := strans_rmDelAllSpec st m
   split
   · rename_i st1 e heq; rw [heq] at h; exact h
   · rename_i st1 heq; rw [heq] at h; exact h
 
-theorem strans_delSpecOf (st : St) (m : Nat) (v : Val) : STrans strict (sp st) (sp (delSpecOf st m v).1) := by
+theorem strans_delSpecOf (st : St) (m : Nat) (v : Val) : STrans (sp st) (sp (delSpecOf st m v).1) := by
   unfold delSpecOf
   split
   · exact .refl _
   · exact strans_delSpec st _
 
-/-- the sheet setter: always within the code's own test; within creation's rule when the trigger
-`trigSheetNone` is excluded -/
-theorem strans_setSheet (st : St) (m : Nat) (v : Val) (sh : Option String)
-    (hs : strict = true → trigSheetNone st (.setSheet m v sh) = false) :
-    STrans strict (sp st) (sp (setSheet st m v sh).1) := by
+theorem strans_setSheet (st : St) (m : Nat) (v : Val) (sh : Option String) :
+    STrans (sp st) (sp (setSheet st m v sh).1) := by
   unfold setSheet
   split
   · exact .refl _
   · rename_i σ hσ
     split
     · rename_i hf
-      refine .setSheet st.specs st.nextSid σ sh (getSpec_some hσ).1 hf ?_
-      intro hst hnone c hc
-      have := hs hst
-      simp only [trigSheetNone, hσ, hnone, Option.isNone_none, Bool.true_and, List.any_eq_false,
-        bne_iff_ne, ne_eq, Decidable.not_not] at this
-      exact this c hc
+      exact .setSheet st.specs st.nextSid σ sh (getSpec_some hσ).1 hf
     · exact .refl _
 
-theorem strans_step (kw : List String) (st : St) (op : Op)
-    (hs : strict = true → trigSheetNone st op = false) :
-    STrans strict (sp st) (sp (step kw st op)) := by
+theorem strans_step (kw : List String) (st : St) (op : Op) :
+    STrans (sp st) (sp (step kw st op)) := by
   unfold step stepR
   cases op with
   | newModel m => simp only; split <;> exact .refl _
@@ -214,7 +203,7 @@ theorem strans_step (kw : List String) (st : St) (op : Op)
   | setSheet m v sh =>
     simp only; split
     · exact .refl _
-    · exact strans_setSheet st m v sh hs
+    · exact strans_setSheet st m v sh
   | delSpec m v =>
     simp only; split
     · exact .refl _
